@@ -13,7 +13,7 @@ ASSUMPTIONS = [
     "reference gaps (SOP TransportID routing id position, mode pages other than 02/0A/0A-01/1D, multi-page MODE SENSE) are not decided",
 ]
 
-LIST_FORMATS = {"inquiry.vpd00", "inquiry.vpd83", "getlbastatus", "reportluns", "reporttargetportgroups", "reportpriority",
+LIST_FORMATS = {"inquiry.vpd00", "inquiry.vpd80", "inquiry.vpd83", "getlbastatus", "reportluns", "reporttargetportgroups", "reportpriority",
                 "readelementstatus", "prin.readkeys", "prin.readfullstatus"}
 
 
@@ -28,7 +28,10 @@ def modes(f, shard):
         for m in f.walk_modes(small=shard["small"]):
             yield m
     if f.name in LIST_FORMATS or f.name.startswith("prin.readres"):
-        for n in (0, 1, 2, 3, 4, 17):
+        big = (40, 300) if shard["small"] else (40, 300, 1400, 9000)
+        for n in (0, 1, 2, 3, 4, 17) + big:
+            if n > 300 and f.name in ("inquiry.vpd83", "prin.readfullstatus", "reportpriority"):
+                continue  # 2-byte page length / allocation cannot hold that many
             if f.name == "reporttargetportgroups":
                 yield ("count", n, 0)
                 yield ("count", n, 1)
